@@ -386,6 +386,15 @@ var c19Junk = []string{
 type c19Univ struct {
 	names  []string
 	groups [][]string // names sharing a prefix, ≥ 2 each
+	// straddle: names whose hash repeats its own first two bytes at offset j
+	// (1 ≤ j ≤ 30): two other 32-byte values with the same prefix can then be
+	// crafted whose concatenation contains the hash across their boundary
+	straddle []c19Straddle
+}
+
+type c19Straddle struct {
+	name string
+	j    int
 }
 
 func c19BuildUniverse() (u *c19Univ) {
@@ -414,6 +423,16 @@ func c19BuildUniverse() (u *c19Univ) {
 		h := sha256.Sum256([]byte(n))
 		p := [2]byte{h[0], h[1]}
 		byPref[p] = append(byPref[p], n)
+	}
+	for _, n := range u.names {
+		h := sha256.Sum256([]byte(n))
+		for j := 1; j <= 30; j++ {
+			if h[j] == h[0] && h[j+1] == h[1] {
+				u.straddle = append(u.straddle, c19Straddle{n, j})
+
+				break
+			}
+		}
 	}
 	// deterministic order
 	for _, n := range u.names {
@@ -515,6 +534,30 @@ func c19Gen(r *rand.Rand, emit vutil.Emit) {
 			db = append(db, vutil.Pick(r, db))
 		}
 		r.Shuffle(len(db), func(i, j int) { db[i], db[j] = db[j], db[i] })
+		if len(u.straddle) > 0 && r.IntN(8) == 0 {
+			// a name that is NOT listed, and two listed 32-byte values with its
+			// prefix, adjacent in every answer, whose concatenation contains
+			// the name's hash across the record boundary
+			sd := vutil.Pick(r, u.straddle)
+			h := hostnameHash(sha256.Sum256([]byte(sd.name)))
+			k := hashSize - sd.j
+			var h1, h2 hostnameHash
+			for i := range h1 {
+				h1[i], h2[i] = byte(r.IntN(256)), byte(r.IntN(256))
+			}
+			h1[0], h1[1] = h[0], h[1]
+			copy(h1[k:], h[:sd.j])
+			copy(h2[:k], h[sd.j:])
+			listed := map[hostnameHash]bool{}
+			for _, s := range c19Subs(sd.name) {
+				listed[sha256.Sum256([]byte(s))] = true
+			}
+			db = slices.DeleteFunc(db, func(x hostnameHash) bool { return listed[x] || (x[0] == h[0] && x[1] == h[1]) })
+			at := r.IntN(len(db) + 1)
+			db = slices.Insert(db, at, h1, h2)
+			// make it one of the hot names: looked up fresh, then from the cache
+			hosts = append([]string{sd.name}, hosts...)
+		}
 
 		f := []string{"C19.reset", vutil.Itoa(ttl), vutil.Itoa(size), vutil.Hex(suffix), vutil.Itoa(len(db))}
 		for _, h := range db {
